@@ -3,11 +3,17 @@
 Items travel as codes: 0 = None, otherwise 1 + 3*v + t  (t: 0 int or str-char, 1 float, 2 bool).
 `==`/`hash` only see the class  cls(code) = 0 for None, v + 1 otherwise.
 """
+import collections
 import itertools
+import sys
 
 from bv.common import Property, Failure, time_limit, exc_name, CaseTimeout
 
 KINDS = ('list', 'tuple', 'iter', 'gen', 'str', 'bytes')
+# round 2: more input kinds (chunked_iter has type-specific paths: `not src`, isinstance str/bytes)
+KINDS2 = KINDS + ('bytearray', 'deque', 'range')
+REITERABLE = ('list', 'tuple', 'str', 'bytes', 'bytearray', 'deque', 'range')
+MUTABLE = ('list', 'bytearray', 'deque')
 KEYS_NUM = ('id', 'mod2', 'mod3', 'div2', 'const', 'bool', 'real', 'imag', 'den', 'nope')
 
 
@@ -24,7 +30,13 @@ def tag(c):
     return (c - 1) % 3
 
 
+def ikind(kind):
+    """the item type of an input kind: 'str' (characters), 'bytes' (small ints) or 'list' (any item)"""
+    return 'str' if kind == 'str' else 'bytes' if kind in ('bytes', 'bytearray') else 'list'
+
+
 def dec(c, kind='list'):
+    kind = ikind(kind)
     if kind == 'str':
         return chr(97 + val(c))
     if c == 0:
@@ -39,7 +51,7 @@ def dec_fill(c, kind):
     """a fill / end value of the item type of `kind` (None stays None)"""
     if c is None or c == 0:
         return None
-    return dec(c, kind if kind in ('str', 'bytes') else 'list')
+    return dec(c, ikind(kind))
 
 
 class BadValue(Exception):
@@ -79,7 +91,73 @@ def mk_src(codes, kind):
         return ''.join(items)
     if kind == 'bytes':
         return bytes(items)
+    if kind == 'bytearray':
+        return bytearray(items)
+    if kind == 'deque':
+        return collections.deque(items)
+    if kind == 'range':
+        if not is_run(codes):
+            raise BadCase('range input needs consecutive ints')
+        return range(items[0], items[0] + len(items)) if items else range(0)
     raise ValueError(kind)
+
+
+def is_run(codes):
+    """codes of consecutive plain ints (what a range object can hold)"""
+    return all(c >= 1 and tag(c) == 0 for c in codes) and all(b - a == 3 for a, b in zip(codes, codes[1:]))
+
+
+class BadCase(Exception):
+    """a case the harness itself cannot build (never produced by the generators / shrinker)"""
+
+
+# ------------------------------------------------------------------ numeric arguments as the caller passes them
+# case['pa'] = {param name: alias}; the case field always holds the int the argument converts to
+#   'f' float(v)   'h' v +- 0.5 (int() truncates back to v)   'g' -0.5 (v == 0)   'b' bool(v) (v in 0, 1)
+def palias(case, name):
+    a = (case.get('pa') or {}).get(name)
+    v = case.get(name)
+    if a is None or v is None:
+        return None
+    if a == 'g' and v != 0:
+        return None
+    if a == 'b' and v not in (0, 1):
+        return None
+    return a
+
+
+def pobj(case, name):
+    """the Python object passed for a numeric parameter"""
+    v, a = case[name], palias(case, name)
+    if a is None:
+        return v
+    if a == 'f':
+        return float(v)
+    if a == 'h':
+        return v + 0.5 if v >= 0 else v - 0.5
+    if a == 'g':
+        return -0.5
+    return bool(v)
+
+
+def ptok(case, name):
+    """the same argument for the Lean driver: `5`, `h11` (= 5.5, halves), `bT`"""
+    v, a = case[name], palias(case, name)
+    if v is None:
+        return '-'
+    if a is None:
+        return str(v)
+    if a == 'f':
+        return 'h%d' % (2 * v)
+    if a == 'h':
+        return 'h%d' % (2 * v + 1 if v >= 0 else 2 * v - 1)
+    if a == 'g':
+        return 'h-1'
+    return 'bT' if v else 'bF'
+
+
+def is_float_alias(case, name):
+    return palias(case, name) in ('f', 'h', 'g')
 
 
 def kcls(k):
@@ -158,6 +236,9 @@ def sep_classes(sep):
         return {0}
     if sep[0] == 'v':
         return {cls(sep[1])}
+    if sep[0] == 't':
+        # a str separator is a scalar: it equals a character item only if it is that one character
+        return {cls(sep[1][0])} if len(sep[1]) == 1 else set()
     return {cls(c) for c in sep[1]}
 
 
@@ -176,21 +257,33 @@ class C09(Property):
     THOROUGH_BUDGET_S = 600
     RULE = ('a case is one call: op (chunked, windowed, pairwise, split, l/r/strip, unique, redundant, bucketize, '
             'partition, chunk_ranges; plus pysplit/pystrip = the Lean spec of str.split/strip against CPython), the '
-            'input kind (list, tuple, one-shot iterator, generator, str, bytes), the items and all parameters; the '
-            'list-returning and the *_iter form are both run. Exhaustive: all lists up to length 6 (7 thorough) over '
-            '{a, b, sep} for split/strip with every separator kind and maxsplit -1..5; lengths 0..8 x size -1..9 x '
-            'count x fill for chunked/windowed; all lists up to 5 over 4 aliasing items for unique/redundant/'
-            'bucketize/partition; all chunk_ranges parameters up to 13/7/9; then seeded random larger cases with '
-            '1/1.0/True aliases. Non-trivial = valid parameters and an output with at least two groups/chunks/'
-            'windows/ranges, or something actually stripped / deduplicated; distinct = distinct (op, kind, items, '
-            'parameters).')
+            'input kind (list, tuple, one-shot iterator, generator, str, bytes, bytearray, deque, range), the items '
+            'and all parameters; numeric arguments may be passed as float (x.0, x.5) or bool, arguments may be left '
+            'at their defaults / passed by keyword, and the call may be repeated on the same input object (results '
+            'must agree, a mutable input must be left unchanged); the list-returning and the *_iter form are both '
+            'run. First small adversarial families: every input kind x lengths 0..4 x sizes x fills x argument '
+            'aliases for chunked/windowed/pairwise; all lists up to 3 over {None, 0, False, 2} x separators None / 0 / '
+            'False / 0.0 / empty and one-element collections / callables / str separators x maxsplit for split and '
+            'strip; all lists up to 3 over {None, 0, 0.0, True, 1} x every key kind (identity, callable, attribute '
+            'with fallback, key list, default) for unique/redundant/bucketize/partition; small chunk_ranges with '
+            'float/bool arguments and defaults; chunk_ranges and chunk sizes at huge magnitudes near chunk '
+            'boundaries. Then exhaustive: all lists up to length 6 (7 thorough) over {a, b, sep} for split/strip '
+            'with every separator kind and maxsplit -1..5; lengths 0..8 x size -1..9 x count x fill for '
+            'chunked/windowed; all lists up to 5 over 4 aliasing items for unique/redundant/bucketize/partition; '
+            'all chunk_ranges parameters up to 13/7/9; then seeded random larger cases with 1/1.0/True aliases. '
+            'Non-trivial = valid parameters and an output with at least two groups/chunks/windows/ranges, or '
+            'something actually stripped / deduplicated; distinct = distinct (op, kind, items, parameters).')
     ASSUMPTIONS = [
         'items are hashable and == is an equivalence consistent with hash (1, 1.0, True are one key); no NaN',
         'inputs are finite; infinite iterators are outside the property',
         'key / value_transform / key_filter callables are pure and drawn from a table both sides can evaluate',
         'chunk_ranges with overlap_size >= chunk_size (zero or negative step) is outside the model and not judged',
         'windowed size 0, non-positive chunk sizes and negative counts / maxsplit are "invalid parameters": the '
-        'model reproduces them but the oracle demands nothing there',
+        'model reproduces them but the oracle demands nothing there; likewise a float count (rejected by '
+        'itertools.islice), a float window size (rejected by itertools.tee) and a str separator that is not a '
+        'single character (it equals no item: nothing is split)',
+        'numeric arguments are ints, bools or floats with fractional part .0 / .5 (int() truncates toward zero); '
+        'chunk sizes above sys.maxsize (rejected by itertools.islice) are not generated',
     ]
     CORRESPONDENCE_NAME = 'C09.Driver (iterutils helper models) vs boltons.iterutils functions'
 
@@ -198,10 +291,14 @@ class C09(Property):
     def cases(self, budget_s):
         rng = self.rng
         th = self.thorough
-        yield from self.gen_chunk_window(th)
-        yield from self.gen_split_strip(8 if th else 7)
+        # round 2: small, diverse, adversarial families first (a defect should surface within seconds), the big
+        # exhaustive scopes after them, seeded random last
+        yield from self.gen_small()
+        yield from self.gen_huge()
         yield from self.gen_group(th)
         yield from self.gen_ranges(th)
+        yield from self.gen_chunk_window(th)
+        yield from self.gen_split_strip(8 if th else 7)
         yield from self.gen_spec(7 if th else 6)
         n_rand = 600000 if th else 40000
         for _ in range(n_rand):
@@ -210,12 +307,171 @@ class C09(Property):
     def deep_cases(self, budget_s):
         """finite (about a minute): wider exhaustive scopes, then random cases with a larger share of big ones"""
         rng = self.rng
+        yield from self.gen_small()
+        yield from self.gen_huge()
         yield from self.gen_group(True)
         yield from self.gen_ranges(True)
         yield from self.gen_chunk_window(True)
         yield from self.gen_split_strip(7)
         for _ in range(100000):
             yield self.random_case(rng, big=rng.random() < 0.3)
+
+    def gen_small(self):
+        """round 2: tiny scopes over the unusual-but-legal corners: every input kind (bytearray, deque, range
+        too), None / 0 / 0.0 / False / True items and separators, empty separator collections, str separators,
+        numeric arguments given as float / bool, arguments left at their defaults or passed by keyword, and
+        calls repeated on the same input object"""
+        # -- chunked / windowed / pairwise
+        for kind in KINDS2:
+            ik = ikind(kind)
+            for n in range(0, 5):
+                xs = [1 + 3 * i for i in range(n)]
+                for fill in (None, 0, 13):
+                    if fill == 0 and ik != 'list':
+                        continue
+                    for size in (1, 2, 3, 0):
+                        for pa in (None, 'f', 'h', 'b', 'g'):
+                            case = {'op': 'chunked', 'kind': kind, 'xs': xs, 'size': size, 'count': None, 'fill': fill}
+                            if pa:
+                                case['pa'] = {'size': pa}
+                                if palias(case, 'size') is None:
+                                    continue
+                            if kind in REITERABLE:
+                                case['twice'] = True
+                            yield case
+                        for count, cpa, dflt in ((1, None, False), (2, None, True), (1, 'b', False), (0, 'b', False),
+                                                 (1, 'f', False)):
+                            case = {'op': 'chunked', 'kind': kind, 'xs': xs, 'size': size, 'count': count, 'fill': fill}
+                            if cpa:
+                                case['pa'] = {'count': cpa}
+                            if dflt:
+                                case['dflt'] = True
+                            yield case
+                    for size, pa in ((1, None), (2, None), (3, None), (4, None), (5, None), (1, 'b'), (2, 'f'), (0, 'b')):
+                        case = {'op': 'windowed', 'kind': kind, 'xs': xs, 'size': size, 'fill': fill}
+                        if pa:
+                            case['pa'] = {'size': pa}
+                        if kind in REITERABLE:
+                            case['twice'] = True
+                        yield case
+                    yield {'op': 'pairwise', 'kind': kind, 'xs': xs, 'fill': fill}
+        # -- split: falsy separators and items, empty collections, callables; maxsplit as float / bool
+        syms = (0, 1, 3, 7)           # None, 0, False, 2
+        seps = (['n'], ['v', 1], ['v', 3], ['v', 2], ['s', []], ['s', [1]], ['s', [0]], ['s', [0, 7]],
+                ['c', [1]], ['c', []])
+        kinds = ('list', 'tuple', 'iter', 'gen', 'deque')
+        i = 0
+        for n in range(0, 4):
+            for xs in itertools.product(syms, repeat=n):
+                for sep in seps:
+                    for ms in (None, 0, 1, 2):
+                        i += 1
+                        case = {'op': 'split', 'kind': kinds[i % 5], 'xs': list(xs), 'sep': list(sep), 'ms': ms}
+                        if ms is not None:
+                            a = (None, 'f', 'h', 'b', None, 'g', None)[i % 7]
+                            if a:
+                                case['pa'] = {'ms': a}
+                        elif sep[0] == 'n' and i % 2:
+                            case['dflt'] = True
+                        if kinds[i % 5] in REITERABLE and i % 3 == 0:
+                            case['twice'] = True
+                        yield case
+        for n in range(0, 4):
+            for xs in itertools.product((4, 7, 10), repeat=n):
+                for sep in (['t', []], ['t', [4]], ['t', [4, 7]], ['t', [7, 4, 7]], ['v', 4], ['n']):
+                    for ms in (None, 1):
+                        yield {'op': 'split', 'kind': 'str', 'xs': list(xs), 'sep': sep, 'ms': ms}
+            for xs in itertools.product((4, 7), repeat=n):
+                for kind in ('bytes', 'bytearray', 'range'):
+                    if kind == 'range' and not is_run(list(xs)):
+                        continue
+                    for ms in (None, 1):
+                        yield {'op': 'split', 'kind': kind, 'xs': list(xs), 'sep': ['v', 4], 'ms': ms}
+        # -- strip: None / 0 / False / 0.0 as strip value
+        i = 0
+        for n in range(0, 4):
+            for xs in itertools.product(syms, repeat=n):
+                for v in (0, 1, 3, 2):
+                    for op in ('lstrip', 'rstrip', 'strip'):
+                        i += 1
+                        case = {'op': op, 'kind': kinds[i % 5], 'xs': list(xs), 'v': v}
+                        if kinds[i % 5] in REITERABLE and i % 3 == 0:
+                            case['twice'] = True
+                        yield case
+            for xs in itertools.product((4, 7), repeat=n):
+                for op in ('lstrip', 'rstrip', 'strip'):
+                    for kind in ('bytes', 'bytearray', 'str'):
+                        yield {'op': op, 'kind': kind, 'xs': list(xs), 'v': 4}
+        # -- unique / redundant / bucketize / partition: None and the 0 / 0.0 / True / 1 aliases, every key kind
+        gsyms = (0, 1, 2, 6, 4)       # None, 0, 0.0, True, 1
+        gkinds = ('list', 'tuple', 'iter', 'gen', 'deque')
+        i = 0
+        for n in range(0, 4):
+            for t in itertools.product(gsyms, repeat=n):
+                xs = list(t)
+                i += 1
+                kind = gkinds[i % 5]
+                tw = {'twice': True} if kind in REITERABLE else {}
+                keys = ['id', 'nope', 'real', 'den', 'imag', 'bool', 'const']
+                if 0 not in xs:
+                    keys += ['mod2', 'div2']
+                for key in keys:
+                    yield dict({'op': 'unique', 'kind': kind, 'xs': xs, 'key': key}, **tw)
+                    yield dict({'op': 'redundant', 'kind': kind, 'xs': xs, 'key': key, 'groups': False}, **tw)
+                    yield dict({'op': 'redundant', 'kind': kind, 'xs': xs, 'key': key, 'groups': True}, **tw)
+                    yield dict({'op': 'bucketize', 'kind': kind, 'xs': xs, 'key': key, 'vt': 'id',
+                                'kf': (None, 0, 1, 2)[i % 4]}, **tw)
+                    yield {'op': 'partition', 'kind': kind, 'xs': xs, 'key': key}
+                yield {'op': 'bucketize', 'kind': kind, 'xs': xs, 'key': 'bool', 'vt': 'id', 'kf': None, 'dflt': True}
+                yield {'op': 'partition', 'kind': kind, 'xs': xs, 'key': 'bool', 'dflt': True}
+                if kind in ('list', 'tuple'):
+                    for ks in ([gsyms[(i + j) % 5] for j in range(n)], [gsyms[(i * j) % 5] for j in range(n)],
+                               [0] * (n + 1)):
+                        yield dict({'op': 'bucketize', 'kind': kind, 'xs': xs, 'key': ['L', ks], 'vt': 'id',
+                                    'kf': (None, 0)[i % 2]}, **tw)
+        for n in range(0, 5):
+            run = [1 + 3 * j for j in range(n)]
+            for kind in ('range', 'bytes', 'bytearray'):
+                for key in ('id', 'mod2', 'div2', 'bool', 'const'):
+                    yield {'op': 'unique', 'kind': kind, 'xs': run, 'key': key, 'twice': True}
+                    yield {'op': 'redundant', 'kind': kind, 'xs': run, 'key': key, 'groups': n % 2 == 0}
+                    yield {'op': 'bucketize', 'kind': kind, 'xs': run, 'key': key, 'vt': 'sq', 'kf': None}
+                    yield {'op': 'partition', 'kind': kind, 'xs': run, 'key': key}
+        # -- chunk_ranges: small, arguments as float / bool, defaults / keywords
+        i = 0
+        for size in range(0, 7):
+            for cs in range(1, 4):
+                for off in range(0, 4):
+                    for ov in range(0, cs):
+                        for al in (False, True):
+                            i += 1
+                            base = {'op': 'chunk_ranges', 'size': size, 'cs': cs, 'off': off, 'ov': ov, 'align': al}
+                            yield dict(base, dflt=True)
+                            name = ('size', 'cs', 'off', 'ov')[i % 4]
+                            a = ('f', 'h', 'b', 'g')[(i // 4) % 4]
+                            case = dict(base, pa={name: a})
+                            if palias(case, name):
+                                yield case
+                            yield dict(base, pa={'size': 'h', 'cs': 'f', 'off': 'h', 'ov': 'f'})
+
+    def gen_huge(self):
+        """round 2: boundary arithmetic at huge magnitudes (exact integers; a float shortcut goes wrong here)"""
+        for step in (10 ** 17, 2 ** 60 + 1, 3 * 10 ** 18 + 7):
+            for ov in (0, 1, 12345):
+                cs = step + ov
+                for q in (1, 2, 10):
+                    for d in (-1, 0, 1):
+                        for off in (0, 5, 10 ** 18 + 1):
+                            for al in (False, True):
+                                yield {'op': 'chunk_ranges', 'size': q * step + ov + d, 'cs': cs, 'off': off, 'ov': ov,
+                                       'align': al}
+        for kind in ('list', 'iter', 'str', 'bytes', 'range', 'deque'):
+            for size in (2 ** 31 - 1, 2 ** 31, sys.maxsize):
+                for n in (0, 1, 3):
+                    xs = [1 + 3 * i for i in range(n)]
+                    yield {'op': 'chunked', 'kind': kind, 'xs': xs, 'size': size, 'count': None, 'fill': None}
+                    yield {'op': 'chunked', 'kind': kind, 'xs': xs, 'size': size, 'count': 2, 'fill': None,
+                           'pa': {'size': 'f'} if size < 2 ** 53 else {}}
 
     def gen_chunk_window(self, th):
         maxn = 10 if th else 8
@@ -322,20 +578,37 @@ class C09(Property):
                          'redundant', 'bucketize', 'partition', 'chunk_ranges', 'chunk_ranges', 'pysplit', 'pystrip'])
         n = rng.randint(0, 60) if big else rng.randint(0, 14)
         if op in ('chunked', 'windowed', 'pairwise'):
-            kind = rng.choice(KINDS)
-            if kind in ('str', 'bytes'):
+            kind = rng.choice(KINDS2)
+            if kind == 'range':
+                a = rng.randrange(6)
+                xs = [1 + 3 * (a + i) for i in range(n)]
+                fill = rng.choice([None, 0, rng.choice([1, 2, 4, 6, 13])])
+            elif ikind(kind) != 'list':
                 xs = self.random_items(rng, n, 6, none_ok=False, aliases=False)
                 fill = rng.choice([None, 1 + 3 * rng.randrange(6)])
             else:
                 xs = self.random_items(rng, n, 5)
                 fill = rng.choice([None, 0, rng.choice([1, 2, 4, 6, 13])])
             size = rng.choice([rng.randint(1, 5), rng.randint(1, max(1, n + 2)), rng.randint(-1, 3)])
+            extra = {}
+            if kind in REITERABLE and rng.random() < 0.15:
+                extra['twice'] = True
             if op == 'chunked':
-                return {'op': op, 'kind': kind, 'xs': xs, 'size': size, 'fill': fill,
+                case = {'op': op, 'kind': kind, 'xs': xs, 'size': size, 'fill': fill,
                         'count': rng.choice([None, None, rng.randint(0, 6), -1 if rng.random() < 0.1 else 2])}
+                r = rng.random()
+                if r < 0.15:
+                    extra['pa'] = {'size': rng.choice('fhbg')}
+                elif r < 0.2 and case['count'] is not None:
+                    extra['pa'] = {'count': rng.choice('bbf')}
+                elif r < 0.3:
+                    extra['dflt'] = True
+                return dict(case, **extra)
             if op == 'windowed':
-                return {'op': op, 'kind': kind, 'xs': xs, 'size': size, 'fill': fill}
-            return {'op': op, 'kind': kind, 'xs': xs, 'fill': fill}
+                if rng.random() < 0.1:
+                    extra['pa'] = {'size': rng.choice('bbf')}
+                return dict({'op': op, 'kind': kind, 'xs': xs, 'size': size, 'fill': fill}, **extra)
+            return dict({'op': op, 'kind': kind, 'xs': xs, 'fill': fill}, **extra)
         if op in ('split', 'pysplit'):
             sk = rng.choice('nnvvsc') if op == 'split' else rng.choice('nv')
             ncl = rng.choice([2, 3, 4])
@@ -355,25 +628,41 @@ class C09(Property):
                 kind = 'str'
                 xs = self.random_items(rng, n, ncl, none_ok=False, aliases=False)
                 sep = ['v', 1 + 3 * rng.randrange(ncl)]
-            return {'op': op, 'kind': kind, 'xs': xs, 'sep': sep,
+                if rng.random() < 0.3:
+                    sep = ['t', self.random_items(rng, rng.choice([0, 1, 1, 2, 3]), ncl, none_ok=False, aliases=False)]
+            elif rng.random() < 0.1:
+                kind = 'deque'
+            case = {'op': op, 'kind': kind, 'xs': xs, 'sep': sep,
                     'ms': rng.choice([None, None, rng.randint(0, 5), rng.randint(0, 2), -1 if rng.random() < 0.2 else 1])}
+            r = rng.random()
+            if r < 0.15 and case['ms'] is not None:
+                case['pa'] = {'ms': rng.choice('fhbg')}
+            elif r < 0.3 and case['ms'] is None and sk == 'n':
+                case['dflt'] = True
+            if kind in REITERABLE and rng.random() < 0.1:
+                case['twice'] = True
+            return case
         if op in ('lstrip', 'rstrip', 'strip', 'pystrip'):
             ncl = rng.choice([1, 2, 3])
             if op == 'pystrip':
                 xs = self.random_items(rng, n, ncl, none_ok=False, aliases=False)
                 return {'op': op, 'xs': xs, 'v': 1 + 3 * rng.randrange(ncl), 'side': rng.choice('lrb')}
-            kind = rng.choice(KINDS[:5])
-            if kind == 'str':
+            kind = rng.choice(KINDS[:5] + ('deque', 'bytearray', 'bytes'))
+            if ikind(kind) != 'list':
                 xs = self.random_items(rng, n, ncl, none_ok=False, aliases=False)
                 return {'op': op, 'kind': kind, 'xs': xs, 'v': 1 + 3 * rng.randrange(ncl)}
             xs = self.random_items(rng, n, ncl)
             return {'op': op, 'kind': kind, 'xs': xs, 'v': rng.choice([0, 0] + self.random_items(rng, 2, ncl, none_ok=False))}
         if op in ('unique', 'redundant', 'bucketize', 'partition'):
-            kind = rng.choice(KINDS)
+            kind = rng.choice(KINDS2)
             if kind == 'str' and op == 'partition':
                 kind = 'list'          # characters are neither True nor False
             ncl = rng.choice([2, 3, 5, 8])
-            if kind in ('str', 'bytes'):
+            if kind == 'range':
+                a = rng.randrange(4)
+                xs = [1 + 3 * (a + i) for i in range(n)]
+                key = rng.choice(['id', 'mod2', 'mod3', 'div2', 'const', 'bool'])
+            elif ikind(kind) != 'list':
                 xs = self.random_items(rng, n, ncl, none_ok=False, aliases=False)
                 key = 'id' if kind == 'str' else rng.choice(['id', 'mod2', 'mod3', 'div2', 'const', 'bool'])
             else:
@@ -385,31 +674,52 @@ class C09(Property):
             if op == 'redundant':
                 return {'op': op, 'kind': kind, 'xs': xs, 'key': key, 'groups': rng.random() < 0.5}
             if op == 'partition':
-                return {'op': op, 'kind': kind, 'xs': xs, 'key': key}
+                return dict({'op': op, 'kind': kind, 'xs': xs, 'key': key},
+                            **({'dflt': True} if key == 'bool' and rng.random() < 0.5 else {}))
             if rng.random() < 0.25 and kind in ('list', 'tuple'):
                 keys = self.random_items(rng, n if rng.random() < 0.9 else n + 1, 3)
                 key = ['L', keys]
             vt = 'sq' if (rng.random() < 0.3 and 0 not in xs and kind not in ('str',)) else 'id'
             kf = rng.choice([None, None, rng.randint(0, 3)])
-            return {'op': op, 'kind': kind, 'xs': xs, 'key': key, 'vt': vt, 'kf': kf}
+            case = {'op': op, 'kind': kind, 'xs': xs, 'key': key, 'vt': vt, 'kf': kf}
+            if key == 'bool' and rng.random() < 0.5:
+                case['dflt'] = True
+            if kind in REITERABLE and rng.random() < 0.1:
+                case['twice'] = True
+            return case
         # chunk_ranges
         cs = rng.randint(1, 40) if big else rng.randint(1, 9)
         ov = rng.randrange(cs)
         if rng.random() < 0.3:
             ov = max(0, cs - 1 - rng.randrange(2))       # overlap close to chunk_size
-        return {'op': 'chunk_ranges', 'size': rng.randint(0, 400 if big else 40), 'cs': cs,
+        case = {'op': 'chunk_ranges', 'size': rng.randint(0, 400 if big else 40), 'cs': cs,
                 'off': rng.randint(0, 100 if big else 25), 'ov': ov, 'align': rng.random() < 0.5}
+        r = rng.random()
+        if r < 0.08:
+            # huge magnitudes: a few chunks of astronomically large size, ends near a chunk boundary
+            step = rng.choice([10 ** 17, 2 ** 60, 2 ** 64 + 1, 10 ** 30]) + rng.randrange(1000)
+            ov = rng.choice([0, 1, rng.randrange(1000)])
+            case.update(cs=step + ov, ov=ov, size=rng.randrange(1, 12) * step + ov + rng.choice([-1, 0, 1]),
+                        off=rng.choice([0, rng.randrange(10 ** 6), step * rng.randrange(5) + rng.randrange(3)]))
+        elif r < 0.25:
+            case['pa'] = {name: rng.choice('fhbg') for name in ('size', 'cs', 'off', 'ov') if rng.random() < 0.5}
+        elif r < 0.4:
+            case['dflt'] = True
+        return case
 
     # ------------------------------------------------------------------ model line
     def line(self, case):
         op = case['op']
         if op == 'chunked':
-            return 'chunked %d %s %s %s' % (case['size'], opt(case['count']), opt(case['fill']), nats(case['xs']))
+            return 'chunked %s %s %s %s' % (ptok(case, 'size'), ptok(case, 'count'), opt(case['fill']),
+                                            nats(case['xs']))
         if op == 'windowed':
-            return 'windowed %d %s %s' % (case['size'], opt(case['fill']), nats(case['xs']))
+            return 'windowed %s %s %s' % (ptok(case, 'size'), opt(case['fill']), nats(case['xs']))
         if op == 'pairwise':
             return 'pairwise %s %s' % (opt(case['fill']), nats(case['xs']))
-        if op in ('split', 'pysplit'):
+        if op == 'split':
+            return 'split %s %s %s' % (sep_token(case['sep']), ptok(case, 'ms'), nats(case['xs']))
+        if op == 'pysplit':
             return '%s %s %s %s' % (op, sep_token(case['sep']), opt(case['ms']), nats(case['xs']))
         if op in ('lstrip', 'rstrip', 'strip'):
             return '%s %d %s' % (op, case['v'], nats(case['xs']))
@@ -427,8 +737,8 @@ class C09(Property):
         if op == 'chunk_ranges':
             if case['cs'] > 0 and case['ov'] >= case['cs']:
                 return None          # zero / negative step: outside the model
-            return 'chunk_ranges %d %d %d %d %d' % (case['size'], case['cs'], case['off'], case['ov'],
-                                                    1 if case['align'] else 0)
+            return 'chunk_ranges %s %s %s %s %d' % (ptok(case, 'size'), ptok(case, 'cs'), ptok(case, 'off'),
+                                                    ptok(case, 'ov'), 1 if case['align'] else 0)
         raise ValueError(op)
 
     # ------------------------------------------------------------------ implementation
@@ -455,6 +765,8 @@ class C09(Property):
             return {'exc': 'CaseTimeout'}
         except BadValue as e:
             return {'exc': 'BadValue', 'msg': str(e)}
+        except BadCase:
+            raise
         except Exception as e:
             return {'exc': exc_name(e)}
 
@@ -469,20 +781,52 @@ class C09(Property):
             r = {'l': s.lstrip, 'r': s.rstrip, 'b': s.strip}[case['side']](ch)
             return encl(r)
         if op == 'chunk_ranges':
-            r = list(iu.chunk_ranges(case['size'], case['cs'], case['off'], case['ov'], case['align']))
-            return [[int(s), int(e)] for s, e in r]
+            size, cs, off, ov = (pobj(case, n) for n in ('size', 'cs', 'off', 'ov'))
+            if case.get('dflt'):
+                # by keyword, arguments that have their default value left out
+                kw = {'chunk_size': cs, 'input_size': size}
+                if off != 0 or type(off) is not int:
+                    kw['input_offset'] = off
+                if ov != 0 or type(ov) is not int:
+                    kw['overlap_size'] = ov
+                if case['align']:
+                    kw['align'] = True
+                r = list(iu.chunk_ranges(**kw))
+            else:
+                r = list(iu.chunk_ranges(size, cs, off, ov, case['align']))
+            if not all(type(t) is tuple and len(t) == 2 and type(t[0]) is int and type(t[1]) is int for t in r):
+                raise BadValue('chunk_ranges yielded %r' % (r[:3],))
+            return [[s, e] for s, e in r]
         kind = case['kind']
         src = mk_src(case['xs'], kind)
+        snap = [(type(x), x) for x in src] if kind in MUTABLE else None
+        r = self.invoke(iu, case, it, src)
+        if snap is not None and [(type(x), x) for x in src] != snap:
+            raise BadValue('the input %s was modified by the call: now %r' % (kind, list(src)[:8]))
+        if case.get('twice') and kind in REITERABLE:
+            r2 = self.invoke(iu, case, it, src)
+            if r2 != r:
+                raise BadValue('a second call on the same input object gave %r, the first gave %r' % (r2, r))
+        return r
+
+    def invoke(self, iu, case, it, src):
+        """one call of the real function on the prepared input object; result as codes"""
+        op = case['op']
+        kind = case['kind']
+        dflt = bool(case.get('dflt'))
         if op == 'chunked':
             kw = {}
             if case['fill'] is not None:
                 kw['fill'] = dec_fill(case['fill'], kind)
+            size = pobj(case, 'size')
             if it:
-                r = list(iu.chunked_iter(src, case['size'], **kw))
+                r = list(iu.chunked_iter(src, size, **kw))
             elif case['count'] is None:
-                r = iu.chunked(src, case['size'], **kw)
+                r = iu.chunked(src, size, **kw)
+            elif dflt:
+                r = iu.chunked(src, size, count=pobj(case, 'count'), **kw)
             else:
-                r = iu.chunked(src, case['size'], case['count'], **kw)
+                r = iu.chunked(src, size, pobj(case, 'count'), **kw)
             if kind in ('str', 'bytes'):
                 want = str if kind == 'str' else bytes
                 if not all(type(c) is want for c in r):
@@ -493,26 +837,35 @@ class C09(Property):
             if case['fill'] is not None:
                 kw['fill' if op == 'windowed' else 'end'] = dec_fill(case['fill'], kind)
             if op == 'windowed':
-                r = list(iu.windowed_iter(src, case['size'], **kw)) if it else iu.windowed(src, case['size'], **kw)
+                size = pobj(case, 'size')
+                r = list(iu.windowed_iter(src, size, **kw)) if it else iu.windowed(src, size, **kw)
             else:
                 r = list(iu.pairwise_iter(src, **kw)) if it else iu.pairwise(src, **kw)
             return [encl(w) for w in r]
         if op == 'split':
             sep = case['sep']
             ekind = kind if kind == 'str' else 'list'
+            sepobj = None
             if sep[0] == 'n':
                 a = (None,)
             elif sep[0] == 'v':
                 a = (dec(sep[1], ekind),)
+            elif sep[0] == 't':
+                a = (''.join(dec(c, 'str') for c in sep[1]),)
             elif sep[0] == 's':
                 objs = [dec(c, ekind) for c in sep[1]]
-                a = (objs if len(objs) % 2 else tuple(objs),)
+                sepobj = objs if len(objs) % 2 else tuple(objs)
+                a = (sepobj,)
             else:
                 classes = {cls(c) for c in sep[1]}
                 a = (lambda x: (0 if x is None else int(x) + 1) in classes,)
             if case['ms'] is not None:
-                a = a + (case['ms'],)
+                a = a + (pobj(case, 'ms'),)
+            elif dflt and sep[0] == 'n':
+                a = ()
             r = list(iu.split_iter(src, *a)) if it else iu.split(src, *a)
+            if sepobj is not None and list(sepobj) != [dec(c, ekind) for c in sep[1]]:
+                raise BadValue('the separator collection was modified by the call')
             return [encl(g) for g in r]
         if op in ('lstrip', 'rstrip', 'strip'):
             v = dec(case['v'], kind if kind == 'str' else 'list')
@@ -532,7 +885,9 @@ class C09(Property):
             key = case['key']
             k = [dec(c) for c in key[1]] if not isinstance(key, str) else key_callable(key)
             kw = {}
-            if k is not None:
+            if dflt and key == 'bool':
+                pass                      # key left at its default (bool)
+            elif k is not None:
                 kw['key'] = k
             else:
                 kw['key'] = lambda x: x
@@ -544,10 +899,15 @@ class C09(Property):
             r = iu.bucketize(src, **kw)
             if type(r) is not dict:
                 raise BadValue('bucketize returned %s' % type(r).__name__)
+            if isinstance(k, list) and [(type(x), x) for x in k] != [(type(dec(c)), dec(c)) for c in key[1]]:
+                raise BadValue('the key list was modified by the call')
             return [[kcls(kk), encl(vs)] for kk, vs in r.items()]
         if op == 'partition':
             k = key_callable(case['key'])
-            r = iu.partition(src, (lambda x: x) if k is None else k)
+            if dflt and case['key'] == 'bool':
+                r = iu.partition(src)
+            else:
+                r = iu.partition(src, (lambda x: x) if k is None else k)
             return [encl(r[0]), encl(r[1])]
         raise ValueError(op)
 
@@ -607,10 +967,14 @@ class C09(Property):
     def valid(case):
         op = case['op']
         if op == 'chunked':
-            return case['size'] >= 1 and (case['count'] is None or case['count'] >= 0)
+            # a float count is rejected by itertools.islice (modelled; the property demands nothing there)
+            return case['size'] >= 1 and (case['count'] is None or
+                                          (case['count'] >= 0 and not is_float_alias(case, 'count')))
         if op == 'windowed':
-            return case['size'] >= 1
+            return case['size'] >= 1 and not is_float_alias(case, 'size')      # itertools.tee rejects a float
         if op == 'split':
+            if case['sep'][0] == 't' and len(case['sep'][1]) != 1:
+                return False     # a multi-character (or empty) str separator has no str.split counterpart item-wise
             return case['ms'] is None or case['ms'] >= 0
         if op == 'chunk_ranges':
             return case['size'] >= 0 and case['cs'] >= 1 and case['off'] >= 0 and 0 <= case['ov'] < case['cs']
@@ -797,11 +1161,21 @@ class C09(Property):
                 return Failure('cr_overlap', 'range (%d,%d) does not begin %d before the previous end %d' % (s2, e2, ov, e1))
         if al and any(s % (cs - ov) for s, _ in r[1:]):
             return Failure('cr_align', 'align=True but a later range does not start on a multiple of %d: %r' % (cs - ov, r))
-        cov = set()
-        for s, e in r:
-            cov.update(range(s, e))
-        if not cov >= set(range(off, stop)) or not cov <= set(range(off, stop)):
-            return Failure('cr_cover', 'ranges %r do not cover exactly [%d, %d)' % (r, off, stop))
+        if stop - off <= 100000:
+            cov = set()
+            for s, e in r:
+                cov.update(range(s, e))
+            if not cov >= set(range(off, stop)) or not cov <= set(range(off, stop)):
+                return Failure('cr_cover', 'ranges %r do not cover exactly [%d, %d)' % (r, off, stop))
+        else:
+            # huge spans: the same demand (union of the ranges == [off, stop)) by a sweep over the sorted ranges
+            cur = off
+            for s, e in sorted(r):
+                if s < off or e > stop or s > cur:
+                    return Failure('cr_cover', 'ranges %r do not cover exactly [%d, %d)' % (r, off, stop))
+                cur = max(cur, e)
+            if cur != stop:
+                return Failure('cr_cover', 'ranges %r do not cover exactly [%d, %d)' % (r, off, stop))
         return None
 
     def nontrivial(self, case, obs):
@@ -809,6 +1183,17 @@ class C09(Property):
 
     # ------------------------------------------------------------------ shrinking
     def shrink(self, case):
+        for f in ('twice', 'dflt', 'pa'):
+            if case.get(f):
+                yield {k: v for k, v in case.items() if k != f}
+        if case.get('kind') == 'range':
+            # a range can only lose items at its ends; otherwise become a list first
+            xs = case['xs']
+            if xs:
+                yield dict(case, xs=xs[:-1])
+                yield dict(case, xs=xs[1:])
+            yield dict(case, kind='list')
+            return
         if 'xs' in case:
             xs = case['xs']
             for i in range(len(xs)):
@@ -826,8 +1211,12 @@ class C09(Property):
                 yield dict(case, **{f: v - 1})
                 if v > 3:
                     yield dict(case, **{f: v // 2})
-        if case.get('kind') not in (None, 'list') and case.get('kind') not in ('str', 'bytes'):
+        if case.get('kind') not in (None, 'list') and case.get('kind') not in ('str', 'bytes', 'bytearray'):
             yield dict(case, kind='list')
+        if case.get('kind') == 'bytearray':
+            yield dict(case, kind='bytes')
+        if case.get('op') == 'split' and case['sep'][0] in ('s', 't', 'c') and case['sep'][1]:
+            yield dict(case, sep=[case['sep'][0], case['sep'][1][:-1]])
 
 
 def is_subsequence_multiset(small, big):
